@@ -101,9 +101,8 @@ impl<K: PartialEq, V: PartialEq> PartialEq for VecMap<K, V> {
 }
 impl<K: Eq, V: Eq> Eq for VecMap<K, V> {}
 
-/// Fixed-capacity slot map (used for `HttpServer::connections`): no heap growth, removal
-/// leaks the value on purpose (dropping a `UnixStream` is `close(2)`, which Kani cannot model)
-/// and counts it in `removed`.
+/// Fixed-capacity slot map (used for `HttpServer::connections`): no heap growth; removals are
+/// counted in `removed` (and the removed value is leaked, see `retain`).
 pub const SLOTS: usize = 3;
 
 pub struct SlotMap<K, V> {
@@ -176,6 +175,10 @@ impl<K: PartialEq + Copy, V> SlotMap<K, V> {
                 None => true,
             };
             if !keep {
+                // HashMap::retain drops the entry; here it is leaked and counted instead: the drop
+                // glue of a whole ClientConnection (queues of requests and responses) is a large
+                // part of the formula and says nothing about the server (closing the stream on
+                // drop is Rust ownership).  The harness treats a removed entry as closed.
                 let gone = self.slots[i].take();
                 std::mem::forget(gone);
                 self.removed += 1;
